@@ -522,7 +522,9 @@ VALUE = st.one_of(
 # values holding carriage returns (what Windows-authored multi-line values load as)
 VALUE_ANY = st.one_of(VALUE, VALUE, VALUE, st.none(), st.sampled_from(["a\rb", "x\r\ny", "1\r\n,2"]))
 # the last ones: upper-case spellings of attribute and method names of the objects - still just unrelated keys
-UNRELATED = ["OTHER", "FOO", "BGCHANGES2", "STOPS2", "NOTES3", "EXTRADATA", "ITEMS", "KEYS", "GET", "SERIALIZE", "BLANK", "CHARTS", "POP"]
+UNRELATED = ["OTHER", "FOO", "BGCHANGES2", "STOPS2", "NOTES3", "EXTRADATA", "ITEMS", "KEYS", "GET", "SERIALIZE", "BLANK", "CHARTS", "POP",
+             # the empty key (what '#:text;' loads as) and near-namesakes of known properties: no alias table lists them
+             "", "LASTBEATHINT", "LASTSECOND", "BACKGROUND2", "BGCHANGES1", "DISPLAYBPMS", "CDTITLE2", "SAMPLE"]
 
 
 def _key_pools(kind):
